@@ -12,13 +12,13 @@ CLANG_FLAGS = ["-std=c++17", "-O1", "-fno-vectorize", "-fno-slp-vectorize", "-fn
 _lock = threading.Lock()
 _ir_cache = {}
 
-def compile_ir(wrapper, defines):
-    key = (wrapper, tuple(defines))
+def compile_ir(wrapper, defines, extra=()):
+    key = (wrapper, tuple(defines), tuple(extra))
     with _lock:
         if key in _ir_cache: return _ir_cache[key]
     d = subdir("ir-" + hashlib.sha1(repr(key).encode()).hexdigest()[:10])
     ll = os.path.join(d, "w.ll")
-    cmd = ["clang++-14"] + CLANG_FLAGS + ["-D" + x for x in defines] + [os.path.join(HX, wrapper), "-o", ll]
+    cmd = ["clang++-14"] + CLANG_FLAGS + list(extra) + ["-D" + x for x in defines] + [os.path.join(HX, wrapper), "-o", ll]
     r = sh(cmd, timeout=600)
     if r["rc"] != 0: raise RuntimeError("clang++ failed on %s:\n%s" % (wrapper, r["out"][-3000:]))
     with _lock: _ir_cache[key] = ll
@@ -56,17 +56,18 @@ def resolve_unwind(cfile, rules, default):
     return uw
 
 def cxx_ob(pid, oid, wrapper, entry, what, bounds, functions, unwind=2, unwindset=None, defines=("NDEBUG",), havoc=(),
-           weight_gb=3, timeout=900, stubs=(), extra=(), known=None, object_bits=None, noop_re=()):
+           weight_gb=3, timeout=900, stubs=(), extra=(), known=None, object_bits=None, noop_re=(), replace=(), clang_extra=()):
     """One CBMC query on one extern "C" harness function of a wrapper TU."""
     full = "%s.%s" % (pid, oid)
     def build():
-        ll = compile_ir(wrapper, list(defines))
+        ll = compile_ir(wrapper, list(defines), list(clang_extra))
         d = subdir("c-" + full)
         cfile = os.path.join(d, "h.c")
         cmd = [sys.executable, os.path.join(ROOT, "tools", "ir2c.py"), ll, "-o", cfile, "--entry", entry]
         for s in STUB_SRC: cmd += ["--stub-src", s]
         if havoc: cmd += ["--havoc", ",".join(havoc)]
         for rx in noop_re: cmd += ["--noop-re", rx]
+        for rp in replace: cmd += ["--replace", rp]
         r = sh(cmd, timeout=600)
         if r["rc"] != 0: raise RuntimeError("NOT-ENCODED by ir2c: " + r["out"][-2000:])
         ex = ["--max-field-sensitivity-array-size", "300"] + list(extra)   # 25x smaller formulas on 256-byte sector buffers (measured)
@@ -82,7 +83,8 @@ def cxx_ob(pid, oid, wrapper, entry, what, bounds, functions, unwind=2, unwindse
         return dict(cmd=c, native=native, gen_native=gen_native, entry=entry)
     return Obligation(full, what, bounds, functions, build, weight_gb=weight_gb, timeout=timeout,
                       stubs=["IR->C translation by tools/ir2c.py (validated differentially each run)"] + list(stubs)
-                            + ["function body cut, replaced by no-op stub: /%s/" % rx for rx in noop_re], known=known)
+                            + ["function body cut, replaced by no-op stub: /%s/" % rx for rx in noop_re]
+                            + ["calls redirected to a harness contract stub: %s" % rp for rp in replace], known=known)
 
 # ------------------------------------------------------------------ translator validation (Serval-style), per obligation
 def validate_translation(ob, seed, nvec=6):
